@@ -128,7 +128,7 @@ def observed(a):
         internal = {str(k): om(v) for k, v in a.internal_mods.items()} or None
     iv = None
     if a.intervals is not None:
-        iv = sorted([i.start, i.end, bool(i.ambiguous), om(i.mods)] for i in a.intervals)
+        iv = sorted([i.start, i.end, bool(i.ambiguous), om(i.mods)] for i in a.intervals) or None  # [] == no intervals
     return {'sequence': a.sequence, 'labile': om(a.labile_mods), 'static': om(a.static_mods),
             'isotope': om(a.isotope_mods), 'unknown': om(a.unknown_mods), 'nterm': om(a.nterm_mods),
             'cterm': om(a.cterm_mods), 'internal': internal, 'intervals': iv, 'charge': a.charge,
